@@ -76,6 +76,8 @@ type Frame struct {
 	inFrom         map[*State]*ssa.BasicBlock
 	deadVals       map[*ssa.Alloc]Val
 	lastFrameParts map[string]string
+	allowedMemo    map[string][]string
+	allowAllMemo   map[string]bool
 	varargs        map[string][]Val // slice term -> the values stored into the variadic array it was made from
 	arrElems       map[*Cell]map[int64]Val
 }
@@ -588,7 +590,7 @@ func (fr *Frame) enterLoop(li *loopInfo, st *State) *State {
 		ns.heap = g.havocHeap(ns.heap, false)
 		// ghosts may also change through calls
 		for _, k := range g.heapKeys() {
-			if strings.HasPrefix(k, "G:") {
+			if strings.HasPrefix(k, "G:") && k != g.topKey() {
 				ns.heap.set(k, g.declare("lg", g.heapSorts[k]))
 			}
 		}
@@ -613,6 +615,7 @@ func (fr *Frame) enterLoop(li *loopInfo, st *State) *State {
 				g.assume("(forall ((" + r + " Int)) (! (=> " + and(cs...) + " (= (select " + nv + " " + r + ") (select " + oldv + " " + r + "))) :pattern ((select " + nv + " " + r + "))))")
 			}
 		}
+		g.bumpTop(ns) // earlier iterations may have allocated
 	}
 	// pointers held in havocked locals refer to objects that exist at the loop head
 	for _, a := range allocs {
@@ -625,6 +628,25 @@ func (fr *Frame) enterLoop(li *loopInfo, st *State) *State {
 	// 3. the function's frame (assigns clause) is an implicit loop invariant
 	if fr.con != nil && fr.con.HasAssigns {
 		g.assumeUnder(ns.path, fr.frameFormula(ns))
+		if li.heapAll {
+			// heap keys first met later are unknown at the loop head as well: they get their frame assumption when
+			// the loop-head value of the key comes into being
+			allowed, allowAll := fr.frameAllowed()
+			hs := ns.clone()
+			done := map[string]bool{}
+			for _, k := range g.heapKeys() {
+				done[k] = true
+			}
+			ns.heap.base.onNew = func(k string) {
+				if done[k] {
+					return
+				}
+				done[k] = true
+				if f := fr.frameForKey(hs, k, allowed, allowAll); f != "" {
+					g.assumeUnder(hs.path, f)
+				}
+			}
+		}
 	}
 	// 4. assume invariants
 	if ri := fr.rangeInvariant(li, ns); ri != "" {
